@@ -60,6 +60,16 @@ TriWhy(e) ==
              ELSE IF ~lossy /\ ~OwnNear(a.nodes[la], t, a.vals[la], b.vals[lb]) THEN "routes-disagree-own"
              ELSE "ok"
 
+(* a user-defined colour type with its transparency in a field of its own (derive with #[palette(alpha)]; the harness'
+   UserRgb, wired in through Rgb only): Alpha<A> -> UserRgb -> Alpha<A> must carry the transparency over bit for bit in both
+   directions, and the colour must be the one the bare conversions through Srgb give *)
+UserWhy(e) ==
+  IF e.panic = 1 THEN "panic"
+  ELSE IF e.u_alpha # e.alpha_in \/ e.back_alpha # e.alpha_in THEN "alpha-value-changed"
+  ELSE IF e.u # e.srgb \/ e.uo # e.srgb THEN "alpha-changes-colour"
+  ELSE IF e.back # e.back_plain \/ e.back_opaque # e.back_plain THEN "alpha-changes-colour"
+  ELSE "ok"
+
 (* the compile-time existence matrix of the harness against the routing model *)
 (* a conversion the model derives must exist in the code; one the code offers beyond the model (an added
    hand-written impl) is no violation of C01 and is only noted *)
@@ -72,6 +82,7 @@ CapsWhy(e) ==
 Why(e) == CASE e.ev = "walk" -> (IF e.mode = "a" THEN AlphaWhy(e) ELSE WalkWhy(e, e.t))
             [] e.ev = "tri" -> TriWhy(e)
             [] e.ev = "consts" -> CapsWhy(e)
+            [] e.ev = "user" -> UserWhy(e)
 
 TInit == l = 1
 TNext == /\ l <= Len(Rec)
